@@ -25,10 +25,12 @@ def expected(item):
     if not F.is_post(item['kind']):
         return 1, False     # GET requests are not ACME POSTs: never retried, never a success
     if item['family'] == 'acme':
-        rec = item['type'] in C.RECOVERABLE
-        if rec:
-            return min(item['r'] + 1, MAX_TX), item['r'] <= MAX_TX - 1
-        return 1, False
+        # the run may mix types: it goes on while the answers are recoverable errors, up to 10 transmissions in all
+        seq = item.get('types') or [item['type']] * item['r']
+        for j, t in enumerate(seq[:MAX_TX]):
+            if t not in C.RECOVERABLE:
+                return j + 1, False
+        return min(len(seq) + 1, MAX_TX), len(seq) <= MAX_TX - 1
     return 1, False
 
 
@@ -71,9 +73,16 @@ def run_batch(batch):
     for k, it in enumerate(items):
         att = k + (1 if batch.get('first') else 2)
         act = {'action': it['action'], 'status': it.get('status', 400)}
-        if it['family'] == 'acme':
-            act['type'] = it['type']
-        rules.append(F.rule(it['kind'], it['nth'], act, attempt=att, tx_from=0, tx_to=it['r'], rid='%d:%s' % (k, it['label'])))
+        if it.get('headers'):
+            act['headers'] = it['headers']
+        if it.get('types'):
+            # one rule per transmission: the j-th transmission of the request is answered with the j-th type
+            for j, t in enumerate(it['types']):
+                rules.append(F.rule(it['kind'], it['nth'], dict(act, type=t), attempt=att, tx_from=j, tx_to=j + 1, rid='%d.%d:%s' % (k, j, it['label'])))
+        else:
+            if it['family'] == 'acme':
+                act['type'] = it['type']
+            rules.append(F.rule(it['kind'], it['nth'], act, attempt=att, tx_from=0, tx_to=it['r'], rid='%d:%s' % (k, it['label'])))
         it['attempt'] = att
     plan = {'default': {'lifetimes_s': [100], 'chain_lens': [1]}, 'faults': rules}
     total = len(items) + (0 if batch.get('first') else 1)
@@ -209,6 +218,31 @@ def gen(tier):
             for fam, act in (('nonjson', 'http_error_nonjson'), ('empty', 'http_error_empty')):
                 items.append({'family': fam, 'action': act, 'status': st, 'kind': kind, 'nth': nth, 'r': r.choice([1, 3]),
                               'label': '%s:%d' % (fam, st)})
+    # runs mixing several error types (recoverable ones, and a non-recoverable one somewhere in the run)
+    rec = sorted(C.RECOVERABLE)
+    nonrec = [t for t in C.ACME_ERRORS if t not in C.RECOVERABLE and t != 'accountDoesNotExist']
+    for (kind, nth) in (POST_POS if tier != 'quick' else [('newOrder', 0), ('finalize', 0), ('challenge', 0)]):
+        shapes = []
+        for n in ((9, 10, 12, 15) if tier == 'quick' else (2, 5, 9, 10, 11, 12, 15, 19)):
+            shapes.append(('alt', [('badNonce', r.choice(rec[1:]))[j % 2] for j in range(n)]))
+            shapes.append(('halves', ['badNonce'] * (n // 2) + [r.choice(rec[1:])] * (n - n // 2)))
+            shapes.append(('rand', [r.choice(rec) for _ in range(n)]))
+        for n in (3, 7):
+            seq = [r.choice(rec) for _ in range(n)]
+            seq[r.randrange(1, n)] = r.choice(nonrec)
+            shapes.append(('nonrec-inside', seq))
+        for nm, seq in shapes:
+            items.append({'family': 'acme', 'action': 'acme_error', 'types': seq, 'type': None, 'kind': kind, 'nth': nth, 'r': len(seq),
+                          'label': 'mixed-%s:%s' % (nm, '+'.join(sorted(set(seq))))})
+    # error answers carrying a Retry-After header: it never turns a non-recoverable error into a retried one, nor lifts the bound
+    for (kind, nth) in (POST_POS if tier != 'quick' else [('newOrder', 0), ('authz', 0), ('finalize', 0)]):
+        for t in ['unauthorized', 'orderNotReady', 'rejectedIdentifier', 'userActionRequired', F.UNKNOWN_URN, None, 'badNonce', 'rateLimited', 'serverInternal']:
+            for ra in ('0', '1', 'Wed, 21 Oct 2037 07:28:00 GMT'):
+                if tier == 'quick' and r.random() < 0.5:
+                    continue
+                items.append({'family': 'acme', 'action': 'acme_error', 'type': t, 'status': r.choice([400, 429, 503]), 'kind': kind, 'nth': nth,
+                              'r': r.choice([1, 2]) if ra != '1' else 1, 'headers': {'Retry-After': ra},
+                              'label': 'acme:%s+retry-after=%s' % ((t if t and not t.startswith('urn:') else ('unknownUrn' if t else 'noType')), ra[:3])})
     # GET position: only "never success, bounded"
     for t in ['badNonce', 'serverInternal', 'unauthorized']:
         items.append({'family': 'acme', 'action': 'acme_error', 'type': t, 'kind': 'directory', 'nth': 0, 'r': 3, 'label': 'acme:%s' % t, 'get': True})
@@ -248,7 +282,9 @@ def run(tier):
                 if it.get('judged'):
                     chk.count('error_runs_judged')
                     chk.distinct.add((it['kind'], it['nth'], it['label'], it['r']))
-                    if it['family'] == 'acme' and it['type'] in C.RECOVERABLE:
+                    if it.get('types'):
+                        chk.count('mixed_type_runs')
+                    elif it['family'] == 'acme' and it['type'] in C.RECOVERABLE:
                         chk.count('recoverable_runs')
                     else:
                         chk.count('non_recoverable_runs')
@@ -274,7 +310,7 @@ def run(tier):
                 chk.violation('C08|%s|%s' % (cls, c.get('label') or 'stop-at-awaited-status'), what, res, res.get('replay_dir'))
     chk.exhaustive = (tier == 'thorough')
     chk.rule = ('error runs: POST position x (24 ACME types + unknown URN + absent type) x run length r%s, plus non-JSON / empty bodies '
-                'with 7 status codes, GET position, newAccount position; polling: 5 never-terminating objects and k pending answers before '
+                'with 7 status codes, runs mixing recoverable types (alternating, halves, random, one non-recoverable inside), error answers carrying Retry-After, GET position, newAccount position; polling: 5 never-terminating objects and k pending answers before '
                 'the awaited status; distinct = (position, error, r) whose fault fired and whose attempt ended'
                 % (' in 1..12 over all 8 POST positions' if tier == 'thorough' else ' in {1,9,10,12} on 3 positions + sampled others'))
     chk.assumptions = ['a logical request = same kind/url/payload until a 2xx answer, as tracked by the mock CA',
